@@ -1,7 +1,7 @@
 SPECIFICATION Spec
 CONSTANTS
   Kinds = {"PID", "CmdPID", "EWMA", "EWMAQ", "MA", "MAQ", "Integral", "Derivative", "AccToState", "VelToState", "PosToState", "F2Q", "Q2F", "Freeze"}
-  MaxLen = 3
+  MaxLen = 4
   Emit = FALSE
   DimCheck = TRUE
   Rich = FALSE
